@@ -73,6 +73,6 @@ int main(int argc, char **argv) {
     std::vector<Cyc> cycs; { Cyc c; cycs.push_back(c); c.ncycle=2; cycs.push_back(c); c=Cyc(); c.npre=2; c.npost=1; cycs.push_back(c); c=Cyc(); c.npre=1; c.npost=3; cycs.push_back(c); c=Cyc(); c.pre_cycles=2; cycs.push_back(c); c=Cyc(); c.direct_coarse=false; cycs.push_back(c); c=Cyc(); c.max_levels=2; c.coarse_enough=1; cycs.push_back(c); c=Cyc(); c.coarse_enough=4; c.ncycle=2; c.npre=2; c.npost=2; cycs.push_back(c); }
     for (auto &p : pats) for (size_t ci=0; ci<cycs.size(); ++ci) { const Cyc &c=cycs[ci]; bool symcyc = c.npre==c.npost; bool small=p.n<=9;
         op_case<SA,SP>(p,rng,c,symcyc,small); op_case<AG,DJ>(p,rng,c,symcyc,small); op_case<SA,GS>(p,rng,c,symcyc,small);
-        if (ci<2 || T) { op_case<RS,SP>(p,rng,c,symcyc,small); op_case<EM,DJ>(p,rng,c,false,false); op_case<SA,I0>(p,rng,c,symcyc,small); op_case<AG,IK>(p,rng,c,symcyc,small); op_case<SA,IP>(p,rng,c,symcyc,small); op_case<SA,CH>(p,rng,c,symcyc,small && p.n<=7); op_case<SA,IT>(p,rng,c,false,false); } }
+        if (ci<2 || T) { op_case<RS,SP>(p,rng,c,symcyc,small); op_case<EM,DJ>(p,rng,c,false,false); op_case<SA,I0>(p,rng,c,symcyc,small); op_case<AG,IK>(p,rng,c,symcyc,small); op_case<SA,IP>(p,rng,c,symcyc,small); op_case<SA,CH>(p,rng,c,symcyc,small && p.n<=6); op_case<SA,IT>(p,rng,c,false,false); } }
     return hx::finish();
 }
